@@ -199,11 +199,10 @@ func newOTTagsFromScriptAndLanguage(script language.Script, language language.La
 		l, hasLanguage := parsePrivateUseSubtag(string(privateUseSubtag), "-hbot", toUpper)
 		if hasLanguage {
 			languageTags = append(languageTags, l)
-		} else {
-			if prefix == "" { // if the language is 'fully private'
-				prefix = language
-			}
-			languageTags = otTagsFromLanguage(string(prefix)) // TODO:
+		} else if prefix != "" {
+			// a 'fully private' language ("x-...") has no language part:
+			// upstream leaves limit to nullptr and finds nothing
+			languageTags = otTagsFromLanguage(string(prefix))
 		}
 	}
 
